@@ -531,6 +531,29 @@ func run(c *core.Ctx) error {
 		}
 		report(c, rs)
 	}
+	// a failed merge over merge outputs the persister has not recorded, a purge, a clean
+	// Close: the reopened index holds everything (sx.DirectedFailedMerge, shared with C12)
+	{
+		var rs []*runResult
+		for k := 0; k < c.Pick(2, 6); k++ {
+			fres, err := sx.DirectedFailedMerge(c.TempDir("c03f"), c.Seed*3+int64(k))
+			if err != nil {
+				return err
+			}
+			r := &runResult{Spec: runSpec{WL: sx.Workload{Name: "directed-failed-merge"}, Variant: "none"}, CrashedAt: "close-after-failed-merge"}
+			r.Records = sx.CrashRecords(fres.Events)
+			if fres.AtPurge != nil {
+				r.Records = append(r.Records, fres.AtPurge)
+			}
+			if fres.Reopen != nil {
+				r.Records = append(r.Records, fres.Reopen)
+			}
+			c.Eval(1)
+			c.Distinct("directed-failed-merge")
+			rs = append(rs, r)
+		}
+		report(c, rs)
+	}
 	c.Logf("%d crash runs", len(specs))
 	results := make([]*runResult, len(specs))
 	var wg sync.WaitGroup
